@@ -366,7 +366,8 @@ func ClosedAddr() string { return "127.0.0.1:1" }
 
 // Result is what a client saw on its connection.
 type Result struct {
-	Head     bool // a complete response head arrived
+	Head     bool  // a complete (final) response head arrived
+	Interim  []int // status codes of 1xx responses seen before it
 	Status   int
 	Headers  []HV
 	Body     []byte
@@ -401,12 +402,25 @@ func Do(addr, method string, raw []byte, deadline time.Duration, afterWrite func
 	if err != nil {
 		return res, nil // no (complete) head: connection closed / reset
 	}
-	res.Head = true
-	res.Headers = hs
 	p := strings.SplitN(first, " ", 3)
 	if len(p) >= 2 {
 		res.Status, _ = strconv.Atoi(p[1])
 	}
+	for res.Status >= 100 && res.Status <= 199 && res.Status != 101 {
+		// an interim response: remember it and read the next head (the bytes consumed so far are exactly its lines)
+		res.Interim = append(res.Interim, res.Status)
+		headBuf.Reset()
+		if first, hs, err = readHead(br, &headBuf); err != nil {
+			return res, nil
+		}
+		p = strings.SplitN(first, " ", 3)
+		res.Status = 0
+		if len(p) >= 2 {
+			res.Status, _ = strconv.Atoi(p[1])
+		}
+	}
+	res.Head = true
+	res.Headers = hs
 	// body: let net/http interpret the framing of the very same bytes
 	full := io.MultiReader(bytes.NewReader(headBuf.Bytes()), br)
 	resp, err := http.ReadResponse(bufio.NewReader(full), &http.Request{Method: method})
